@@ -3,10 +3,15 @@
 package main
 
 import (
+	"bytes"
+	"compress/gzip"
+	"sort"
+	"strings"
+
 	"filippo.io/sunlight/internal/ctlog"
 )
 
-var scenarioKinds = []string{"basic", "faults", "crash", "two", "boundary", "pool", "clock", "faults", "crash", "startup", "two", "cache"}
+var scenarioKinds = []string{"basic", "faults", "crash", "two", "boundary", "pool", "clock", "faults", "crash", "startup", "two", "cache", "tamper"}
 
 const logName = "example.com/log"
 
@@ -312,11 +317,13 @@ func runScenario(d *driver, kind string) {
 		switch d.r.Intn(3) {
 		case 0:
 			delete(d.w.objects, "checkpoint")
+			d.w.mon.tampered = true
 			d.w.logf(nil, "ev|tamper|checkpoint|delete")
 		case 1:
 			for k := range d.w.objects {
 				if len(k) > 6 && k[:7] == "tile/0/" {
 					delete(d.w.objects, k)
+					d.w.mon.tampered = true
 					d.w.logf(nil, "ev|tamper|%s|delete", k)
 					break
 				}
@@ -325,6 +332,31 @@ func runScenario(d *driver, kind string) {
 		}
 		d.w.mu.Unlock()
 		if li2 := d.restart(li, true); li2 != nil {
+			d.round(li2)
+		}
+	case "tamper":
+		li := d.boot(0)
+		saved := map[string][]byte{}
+		n := []int{2, 3, 257, 300}[d.r.Intn(4)]
+		d.submitMany(li, n)
+		d.round(li)
+		d.round(li)
+		d.w.mu.Lock()
+		saved["checkpoint"] = bytes.Clone(d.w.objects["checkpoint"].data)
+		d.w.mu.Unlock()
+		d.submitSome(li, 2)
+		d.round(li)
+		if d.r.Intn(2) == 0 {
+			d.crashWithin(li, 2+d.r.Intn(6)) // leave a staging bundle / lock ahead of storage behind
+		}
+		d.round(li)
+		d.kill(li)
+		for t := 1 + d.r.Intn(2); t > 0; t-- {
+			d.tamperRandom(saved)
+		}
+		if li2 := d.restart(li, true); li2 != nil {
+			d.submitSome(li2, 2)
+			d.round(li2)
 			d.round(li2)
 		}
 	case "cache":
@@ -344,6 +376,106 @@ func runScenario(d *driver, kind string) {
 			}
 			d.round(li2)
 			d.round(li2)
+		}
+	}
+}
+
+// kill: the instance dies (as after a crash); its sequencer goroutine is waited for
+func (d *driver) kill(prev *logInst) {
+	d.w.mu.Lock()
+	if !prev.in.dead {
+		prev.in.dead = true
+		d.w.logf(nil, "ev|crash|%d", prev.in.id)
+	}
+	if prev.cancel != nil {
+		prev.cancel()
+	}
+	d.w.cond.Broadcast()
+	for prev.running {
+		d.w.cond.Wait()
+	}
+	d.w.mu.Unlock()
+	if prev.log != nil {
+		prev.log.CloseCache()
+		prev.log = nil
+	}
+}
+
+// tamperRandom does something to one stored object and tells the model what
+func (d *driver) tamperRandom(saved map[string][]byte) {
+	w := d.w
+	w.mu.Lock()
+	defer w.mu.Unlock()
+	var keys []string
+	for k := range w.objects {
+		keys = append(keys, k)
+	}
+	sort.Strings(keys)
+	if len(keys) == 0 {
+		return
+	}
+	k := keys[d.r.Intn(len(keys))]
+	if d.r.Intn(3) == 0 { // prefer the objects LoadLog actually reads
+		for _, c := range keys {
+			if strings.Contains(c, ".p/") && d.r.Intn(3) == 0 {
+				k = c
+			}
+		}
+	}
+	o := w.objects[k]
+	compressed := strings.HasPrefix(k, "tile/data/") || strings.HasPrefix(k, "tile/names/")
+	raw := o.data
+	if compressed {
+		raw, _ = gunzip(o.data)
+	}
+	put := func(newRaw []byte) {
+		stored := newRaw
+		if compressed {
+			var b bytes.Buffer
+			zw := gzip.NewWriter(&b)
+			zw.Write(newRaw)
+			zw.Close()
+			stored = b.Bytes()
+		}
+		w.objects[k] = object{stored, o.imm}
+		w.logf(nil, "ev|tamper|%s|bytes|%s", k, hx(newRaw))
+	}
+	d.stats["tamper"]++
+	w.mon.tampered = true
+	switch {
+	case k == "checkpoint":
+		if old, ok := saved["checkpoint"]; ok && d.r.Intn(2) == 0 {
+			t := w.canon.parse(old)
+			w.objects[k] = object{old, false}
+			w.logf(nil, "ev|tamper|checkpoint|cp|%s|%d|%s|%d|%d|-", t.origin, t.size, hx(t.root[:]), t.ts, t.key)
+		} else {
+			delete(w.objects, k)
+			w.logf(nil, "ev|tamper|%s|delete", k)
+		}
+	case strings.HasPrefix(k, "staging/"):
+		delete(w.objects, k)
+		w.logf(nil, "ev|tamper|%s|delete", k)
+	default:
+		switch d.r.Intn(4) {
+		case 0:
+			delete(w.objects, k)
+			w.logf(nil, "ev|tamper|%s|delete", k)
+		case 1:
+			put(raw[:len(raw)/2])
+		case 2:
+			if len(raw) > 0 && !compressed {
+				c := bytes.Clone(raw)
+				c[d.r.Intn(len(c))] ^= 1 << uint(d.r.Intn(8))
+				put(c)
+			} else {
+				// (appending bytes to a right-edge data tile is accepted by LoadLog, which does not look at
+				// what follows the W-th leaf, and then propagates into the next data tile; the model keeps
+				// data tiles at specification level, so this tampering is left out: see DESIGN.md)
+				put(raw[:len(raw)/3])
+			}
+		case 3:
+			other := w.objects[keys[d.r.Intn(len(keys))]]
+			put(bytes.Clone(other.data))
 		}
 	}
 }
@@ -389,7 +521,8 @@ func (d *driver) restartWith(prev, li *logInst, keepCache bool) *logInst {
 // stop: cancel the sequencer's context; RunSequencer returns after the round in flight
 func (d *driver) stop(li *logInst) {
 	li.cancel()
-	for i := 0; i < 3; i++ {
+	for n := 0; n < 50; n++ {
+		d.waitQuiet(li)
 		d.w.mu.Lock()
 		parked := li.parked
 		running := li.running
@@ -398,6 +531,7 @@ func (d *driver) stop(li *logInst) {
 			break
 		}
 		if parked {
+			// the select in RunSequencer may pick the ticker once more before it sees the cancellation
 			d.round(li)
 		}
 	}
